@@ -7,4 +7,4 @@ From FA.Model Require Import Capture.
 
 Extraction Language OCaml.
 Extraction "model.ml" expr_eqb size z_to_string z_of_string nat_to_string Z.of_nat
-  rewrite_captured resolve_called check_ast parse_callable capture_pipeline legal_const names_in.
+  rewrite_captured resolve_called check_ast parse_callable capture_pipeline legal_const names_in helper_capval inner_binders.
